@@ -360,8 +360,8 @@ def schedules_oracle(proj, sch):
         for p, inh, s in suites:
             dis = inh or s["disabled"]
             enabled = any(not (dis or t["disabled"]) for t in s["tests"])
-            if not (enabled or incl):
-                continue
+            if not (enabled or (incl and s["tests"])):      # no suite initialisation task (fix F19: nor under --force-disabled
+                continue                                     # when the suite has no direct test)
             chain = [per_suite[p][incl], ses[incl], pre[incl]]
             hit = check_level(chain[0], chain[1:], "suite %s" % (p,))
             if hit:
